@@ -22,6 +22,8 @@ LEVELS = {
     "C13": "model_checking",
     "C14": "fault_enumeration",
     "C17": "model_checking",
+    "C18": "model_checking",
+    "C19": "model_checking",
 }
 
 # property -> vlib module with run_property(prop, tier, report)
@@ -34,6 +36,8 @@ RUNNERS = {
     "C13": "front",
     "C17": "front",
     "C14": "front",
+    "C18": "fslookup",
+    "C19": "cli",
 }
 
 
